@@ -85,29 +85,40 @@ class Opaque(T):
         self.tag = tag
 
 
+class Rec(T):
+    """Reference to a record living in the symbolic map `MapOf(elem)` held in a ghost field (the *record heap*
+    of that class): usable as element type of ListOf (a symbolic-length list of objects with identity) and as
+    a parameter type (an arbitrary existing record)."""
+
+    def __init__(self, elem):
+        self.elem = elem
+
+
 class Callback(T):
     """Opaque callable; `effect(ghost, *args)` is ghost code run at each call;
     `returns` a type for the result (default None); `raises` exception classes
     the ghost effect may raise into the calling code."""
 
-    def __init__(self, name, effect=None, returns=None, raises=(), is_async=False):
+    def __init__(self, name, effect=None, returns=None, raises=(), is_async=False, with_self=False):
         self.name = name
         self.effect = effect
         self.returns = returns
         self.raises = tuple(raises)
         self.is_async = is_async
+        self.with_self = with_self  # as a model *method*: the effect is called as effect(ghost, receiver, *args)
 
 
 class ListOf(T):
     """list with symbolic spine of elements of scalar type t."""
 
-    def __init__(self, t, flavor='list'):
+    def __init__(self, t, flavor='list', maxlen=None):
         self.t = t
         self.flavor = flavor
+        self.maxlen = maxlen  # collections.deque(maxlen=n): len <= n is a type invariant, append on a full deque drops the left end
 
 
-def DequeOf(t):
-    return ListOf(t, 'deque')
+def DequeOf(t, maxlen=None):
+    return ListOf(t, 'deque', maxlen)
 
 
 class TupleOf(T):
@@ -118,8 +129,8 @@ class TupleOf(T):
 class ConcList(T):
     """list with a concrete spine of n fresh elements of type t."""
 
-    def __init__(self, t, n, flavor='list'):
-        self.t, self.n, self.flavor = t, n, flavor
+    def __init__(self, t, n, flavor='list', maxlen=None):
+        self.t, self.n, self.flavor, self.maxlen = t, n, flavor, maxlen
 
 
 class EmptyDict(T):
@@ -215,6 +226,7 @@ class Lemma:
         self.ghost = kw.pop('ghost', {})
         self.requires = kw.pop('requires', None)
         self.ensures = kw.pop('ensures', None)
+        self.ensures_names = kw.pop('ensures_names', None)
         self.invariants = kw.pop('invariants', {})
         self.decreases = kw.pop('decreases', {})
         self.loop_locals = kw.pop('loop_locals', {})
@@ -223,6 +235,7 @@ class Lemma:
         self.prop = kw.pop('prop', None)
         self.modifies = kw.pop('modifies', ['*'])
         self.raises = {}
+        self.native_setup = kw.pop('native_setup', None)
         self.extra = kw
         self.module = None
 
@@ -285,6 +298,12 @@ def same(a, b):
     return _ORIGIN.get(id(a), a) is _ORIGIN.get(id(b), b)
 
 
+def forall_in(seq, f):
+    """f holds of every element of the sequence (symbolically quantified over the element value, `e in seq`, rather
+    than over the index: cheap for append / freshness reasoning)"""
+    return all(f(x) for x in seq)
+
+
 def implies(a, b):
     return (not a) or bool(b)
 
@@ -323,6 +342,11 @@ def mget(m, k, name):
         return 0
     v = getattr(m[k], name)
     return v.is_set() if hasattr(v, 'is_set') else v
+
+
+def rec_live(x):
+    """is the record reference x an allocated object of its record heap (natively: every real object is)"""
+    return True
 
 
 NATIVE_UF = {}
